@@ -230,7 +230,51 @@ type Attempt struct {
 
 	gmu   sync.Mutex
 	gates map[string]chan struct{} // point+"/"+dir
+
+	// Park, if set before Start, makes the context handed to the broker
+	// stop at one of the calls the broker makes on it.
+	Park *CtxPark
 }
+
+// CtxPark parks the goroutine that makes the Nth call of Method ("Err" or
+// "Done") on an attempt's context: the places where the broker consults the
+// caller's context are legitimate suspension points (a context's methods
+// may take arbitrarily long), so a harness can have something else happen
+// exactly then.
+type CtxPark struct {
+	Method  string
+	Nth     int32
+	Entered chan struct{} // closed when the call is reached
+	proceed chan struct{}
+	n       atomic.Int32
+	once    sync.Once
+}
+
+// NewCtxPark prepares a park at the nth call of method.
+func NewCtxPark(method string, nth int) *CtxPark {
+	return &CtxPark{Method: method, Nth: int32(nth), Entered: make(chan struct{}), proceed: make(chan struct{})}
+}
+
+// Release lets the parked call return (idempotent).
+func (p *CtxPark) Release() { p.once.Do(func() { close(p.proceed) }) }
+
+func (p *CtxPark) at(a *Attempt, method string) {
+	if method != p.Method || p.n.Add(1) != p.Nth {
+		return
+	}
+	a.W.Log.Add(Event{Kind: "ctx-parked", Att: a.ID, S: method})
+	close(p.Entered)
+	<-p.proceed
+	a.W.Log.Add(Event{Kind: "ctx-passed", Att: a.ID, S: method})
+}
+
+type parkCtx struct {
+	context.Context
+	a *Attempt
+}
+
+func (c parkCtx) Err() error            { c.a.Park.at(c.a, "Err"); return c.Context.Err() }
+func (c parkCtx) Done() <-chan struct{} { c.a.Park.at(c.a, "Done"); return c.Context.Done() }
 
 // NewAttempt prepares an attempt; Start launches it.
 func (w *World) NewAttempt(kind, key string, wk WriterKind) *Attempt {
@@ -280,6 +324,9 @@ func (a *Attempt) OpenAllGates() {
 	a.gmu.Unlock()
 	for _, g := range gs {
 		close(g)
+	}
+	if a.Park != nil {
+		a.Park.Release()
 	}
 }
 
@@ -348,13 +395,17 @@ func (a *Attempt) Start() {
 			close(a.Ret)
 		}()
 		sl := a.Logger()
+		ctx := a.ctx
+		if a.Park != nil {
+			ctx = parkCtx{a.ctx, a}
+		}
 		switch a.Kind {
 		case "in":
-			a.W.B.ConnectIn(a.ctx, sl, a.Addr, a.Wr.AsWriter(), a.Key)
+			a.W.B.ConnectIn(ctx, sl, a.Addr, a.Wr.AsWriter(), a.Key)
 		case "out":
-			a.W.B.ConnectOut(a.ctx, sl, a.Addr, a.Rd, a.Key)
+			a.W.B.ConnectOut(ctx, sl, a.Addr, a.Rd, a.Key)
 		case "io":
-			a.W.B.ConnectInOut(a.ctx, sl, a.Addr, a.Wr.AsWriter(), a.Rd)
+			a.W.B.ConnectInOut(ctx, sl, a.Addr, a.Wr.AsWriter(), a.Rd)
 		}
 	}()
 }
